@@ -170,7 +170,7 @@ class Family:
     def reject_prop(self, rj):
         e = rj["event"]
         ks = rj["events"][0].get("ks", False)
-        if e["ev"] == "op" and e.get("op") == "exec":
+        if e["ev"] == "op" and e.get("op") in ("exec", "init"):
             return "C23" if ks else "C18"
         if e["ev"] == "reply" and ks and any(x["ev"] == "nschange" for x in rj["events"]):
             return "C23"
